@@ -137,6 +137,11 @@ class YosysBehavioralRTLIRToVVisitorL2(
   # visit_LoopVar
   #-----------------------------------------------------------------------
 
+  def visit_LoopVarDecl( s, node ):
+    # The loop variable always gets the __loopvar__<blk>_ prefix here
+    s.check_res( node, node.name )
+    return node.name
+
   def visit_LoopVar( s, node ):
     s.check_res( node, node.name )
     nbits = node.Type.get_dtype().get_length()
